@@ -664,10 +664,10 @@ func (p *Program) ComputeGlobalFacts() {
 
 // SliceOpts controls BackSlice.
 type SliceOpts struct {
-	ThroughCalls   bool                          // follow call arguments (result derives from args/receiver)
-	ThroughCallsIf func(c *ssa.Call) bool        // finer control; overrides ThroughCalls when non-nil
-	Stop           func(v ssa.Value) bool        // do not expand this value (it is still included)
-	Stores         bool                          // follow loads from local Allocs / fields of local Allocs to the stored values
+	ThroughCalls   bool                   // follow call arguments (result derives from args/receiver)
+	ThroughCallsIf func(c *ssa.Call) bool // finer control; overrides ThroughCalls when non-nil
+	Stop           func(v ssa.Value) bool // do not expand this value (it is still included)
+	Stores         bool                   // follow loads from local Allocs / fields of local Allocs to the stored values
 }
 
 // BackSlice returns the set of values v may derive from (including v).
